@@ -156,6 +156,12 @@ class Route:
                 if r.random() < 0.4:
                     md = []
                 decoy = [[k, r.choice(["canary", "v1", "v12", "pre-canary"])] for k in cls.KEYS if r.random() < 0.8]
+            elif r.random() < 0.4:
+                # default extractor: persistent metainfo values (lane / gray tags) are not what the conditions are about;
+                # often there is no transient value at all
+                if r.random() < 0.5:
+                    md = []
+                decoy = [[k, r.choice(["canary", "v1", "v12", "pre-canary"])] for k in cls.KEYS if r.random() < 0.8]
             calls.append({"service": "", "pkg": pkg, "svc": "svc", "method": m, "to_method": m if r.random() < 0.9 else "Other",
                           "grpc": r.random() < 0.35, "md": md, "extractor": extractor, "decoy": decoy})
         c = {"lds": C("RGood", lis), "named": named, "calls": calls, "repeat": 1}
